@@ -115,6 +115,13 @@ FrameMissingStaysMissing ==
     LET r == Set(tree, p, v) IN
     (~IsErr(r) /\ Plain(p) /\ Plain(q) /\ Disjoint(p, q) /\ IsErr(Get(tree, q)))
       => IsErr(Get(r, q))
+\* a sequence of sets is applied in order: setting p, writing below p, then setting p to the first value again gives the tree
+\* after the first set (what copy_and_update promises for a sequence of (key, value) pairs in which a key occurs twice)
+ResetRestores ==
+  \A p \in Paths, q \in Paths, v \in NewVals, w \in NewVals :
+    LET r1 == Set(tree, p, v) IN
+    (Plain(p) /\ Plain(q) /\ Prefix(p, q) /\ p # q /\ ~IsErr(r1)) =>
+      LET r2 == Set(r1, q, w) IN ~IsErr(r2) => Set(r2, p, v) = r1
 SetCurrentIsIdentity ==
   \A p \in Paths : (Plain(p) /\ ~IsErr(Get(tree, p))) => Set(tree, p, Get(tree, p)) = tree
 SkipIsIdentity == tree.k \in {"dict", "list", "tuple"} => Set(tree, <<PSkip>>, Leaf(7)) = tree
